@@ -225,6 +225,8 @@ func c15Specs() []cfg.Spec {
 	for e := 0; e < cfg.NExt; e++ {
 		out = append(out, cfg.Spec{Ext: e, AutoHeadingID: true}, cfg.Spec{Ext: e, AutoHeadingID: true, XHTML: true, HardWraps: true})
 	}
+	// automatic ids switched on through the heading parsers' own constructors (a caller-built parser) instead of the parser option
+	out = append(out, cfg.Spec{Ext: cfg.ExtCore, AutoHeadingID: true, HeadingRoute: true}, cfg.Spec{Ext: cfg.ExtCore, AutoHeadingID: true, HeadingRoute: true, XHTML: true})
 	return out
 }
 
@@ -471,6 +473,37 @@ func runC15(c *core.Ctx) {
 			spec := specs[kl%len(specs)]
 			c15Check(c, pool, spec, c15Build(rr, seq, spec))
 			c.Count("documents_with_ids_of_a_chosen_length", 1)
+		}
+	}
+	// 1d. many equal headings after headings whose literal text already is "slug-K": the generated suffixes have to step around
+	// the literal ones, for K around the number of equal headings, around 64/65 and at the boundary sizes
+	kd := 0
+	for _, nEq := range wl.BoundarySizes {
+		if nEq < 2 || nEq > 300 {
+			continue
+		}
+		for v := 0; v < 2; v++ {
+			kd++
+			if !c.Mine(kd) {
+				continue
+			}
+			rr := newRand(core.SeedFor(c.Seed, "c15lit", kd))
+			var seq []string
+			lits := []int{nEq - 2, nEq - 1, nEq, nEq + 1, nEq + 2, 63, 64, 65, 66, 70}
+			if v == 1 {
+				lits = []int{nEq + 3, nEq / 2, 1, 2, nEq * 2}
+			}
+			for _, k := range lits {
+				if k > 0 {
+					seq = append(seq, fmt.Sprintf("a-%d", k))
+				}
+			}
+			for j := 0; j < nEq; j++ {
+				seq = append(seq, "a")
+			}
+			spec := specs[kd%len(specs)]
+			c15Check(c, pool, spec, c15Build(rr, seq, spec))
+			c.Count("documents_with_literal_suffix_headings_before_equal_ones", 1)
 		}
 	}
 	// 2. random longer multisets (many duplicates force long suffix probing)
